@@ -115,9 +115,22 @@ class TKReset(Spec):
     def inputs(self, cx):
         return Args(self=make_timer(cx))
 
+    also_step = False
+
     def model(self, cx, a):
         a.self.attrs["time"] = a.self.attrs["start_time"]
+        if self.also_step:
+            a.self.attrs["step"] = z3.IntVal(0)
         return None
+
+    def alternatives(self):
+        """C13 says what the clock reads at step n; whether reset() also puts the step counter back to 0 (the step whose
+        time is the start time) or leaves it (as the pinned code does; no module calls reset during a run) is open"""
+        alt = TKReset()
+        alt.also_step = True
+        alt.name = "TimeKeeper.reset (step counter back to 0 as well)"
+        alt.alternatives = lambda: []
+        return [alt]
 
 
 class TKStep2Time(Spec):
